@@ -18,7 +18,7 @@ J = 4
 if '-j' in args:
     J = int(args[args.index('-j') + 1]); del args[args.index('-j'):args.index('-j') + 2]
 ids = args or sorted(os.path.basename(d) for d in glob.glob('/verif/seeded/C*'))
-if not args:
+if True:
     by = collections.defaultdict(list)
     for i in ids: by[i[:3]].append(i)
     ids = [g[k] for k in range(max(map(len, by.values()))) for g in by.values() if k < len(g)]
